@@ -100,9 +100,17 @@ def run_program(args):
         base = dict(base, gain_map=gm)
         ref_inp['gain_map'] = gm
         st0, ref = E.run_entry(entry, dict(ref_inp))
+    if rep == 'nddata_ma':      # no uncertainty, no mask: the reference is the bare image
+        ref_inp = dict(ref_inp, error=None, mask=None)
+        st0, ref = E.run_entry(entry, dict(ref_inp))
+        if st0 != 'ok':
+            rec['ref_ok'] = False; rec['ref_exc'] = ref
+            return rec
     inp = dict(ref_inp)
     uses = E.ENTRIES[entry]['uses']
-    if rep == 'nddata':
+    if rep == 'nddata_ma':
+        inp['data'] = NDData(np.ma.MaskedArray(np.asarray(base['data'], dtype=float)))
+    elif rep == 'nddata':
         unc = StdDevUncertainty(base['error'])
         if entry == 'psf_photometry':      # the other uncertainty flavours of NDData (documented: converted to standard deviations)
             from astropy.nddata import InverseVariance, VarianceUncertainty
